@@ -1,15 +1,19 @@
 #!/bin/sh
-# usage: tools/soak.sh <first seed> <last seed> [IDs…]  — quick checks under other seeds on the unchanged tree (false-alarm hunt).
-# Evidence files are restored afterwards: soak output is not evidence.
+# usage: tools/soak.sh <first seed> <last seed> [IDs…]  — checks under other seeds on the unchanged tree (false-alarm hunt).
+#   SOAK_TIER=thorough runs the thorough tier. Evidence files are restored afterwards: soak output is not evidence.
+#   In a background snapshot: vp run --with-repo -- sh -c 'export VERIF_REPO=$VP_RUN_REPO; ./check --setup && tools/soak.sh 7 12'
 a=$1; b=$2; shift 2
 ids="${*:-C01 C02 C03 C04 C05 C06 C07 C08 C09 C10 C11 C12 C13 C14 C15 C16 C17 C18 C19 C20}"
-cd /verif || exit 2
+tier="${SOAK_TIER:-quick}"
+cd "$(dirname "$0")/.." || exit 2
 mkdir -p build/soak; cp evidence/*.json build/soak/
 s=$a
 while [ $s -le $b ]; do
   for id in $ids; do
-    VERIF_SEED=$s ./check $id quick > build/soak/$id.$s.log 2>&1; rc=$?
+    t0=$(date +%s)
+    VERIF_SEED=$s ./check $id $tier > build/soak/$id.$s.log 2>&1; rc=$?
     [ $rc -ne 0 ] && echo "SOAK seed=$s $id rc=$rc $(grep -m1 '^VIOLATION' build/soak/$id.$s.log | cut -c1-160)"
+    [ "$tier" = thorough ] && echo "SOAK seed=$s $id $tier rc=$rc $(( $(date +%s) - t0 )) s"
   done
   echo "SOAK seed=$s done"
   s=$((s+1))
